@@ -51,6 +51,8 @@ def E(mod, fn, *args, **kw):
         d["then"] = kw["then"]
     if "kw" in kw:
         d["kw"] = kw["kw"]
+    if "twin" in kw:
+        d["twin"] = kw["twin"]
     return d
 
 
@@ -202,6 +204,17 @@ def build():
             c.append(E("meter", fn, m))
     for d in (0, 1, 2, 3, 4, 6, 8, 12, 16, 32, 64, 128, 100):
         c.append(E("meter", "valid_beat_duration", d))
+    # ---- argument pairs that a careless memo key (e.g. the concatenation of the arguments) would confuse:
+    # (X+'b', 'b') and (X, 'bb') -- both 'b' and 'bb' are valid (minor) keys
+    for X in ("A", "B", "C", "D", "E", "F", "G"):
+        for fn in ("triad", "seventh"):
+            c.append(E("chords", fn, X + "b", "b", twin="%s:%s" % (fn, X)))
+            c.append(E("chords", fn, X, "bb", twin="%s:%s" % (fn, X)))
+        for fn in INTERVAL_DIATONIC[1:]:
+            c.append(E("intervals", fn, X + "b", "b", twin="%s:%s" % (fn, X)))
+            c.append(E("intervals", fn, X, "bb", twin="%s:%s" % (fn, X)))
+        c.append(E("intervals", "get_interval", X + "b", 3, "b", twin="gi:%s" % X))
+        c.append(E("intervals", "get_interval", X, 3, "bb", twin="gi:%s" % X))
     # ---- constructors of the container / MIDI classes (the result is the encoded object):
     # a separately created object must look the same whatever was created before it
     for args, kw in (
